@@ -80,7 +80,7 @@ def conn_of_width(rng, sigs, w, depth):
     return {"k": "slice", "p": parent, "i": idx}
 
 
-def gen_case(rng, k):
+def gen_case(rng, k, arrays=False):
     nsig = rng.randint(2, 5)
     sigs = [(f"s{i}", rng.randint(1, 6)) for i in range(nsig)]
     ports = [(f"p{i}", rng.randint(1, 4), rng.choice(list(DIRS))) for i in range(rng.randint(0, 3))]
@@ -93,9 +93,15 @@ def gen_case(rng, k):
     insts = []
     for i in range(rng.randint(1, 4)):
         t = rng.randrange(len(targets))
-        conns = [[pn, conn_of_width(rng, allsigs, pw, rng.choice([0, 1, 2, 2, 3]))] for pn, pw in targets[t]["ports"]]
+        inst = {"n": f"i{i}", "t": t}
+        if arrays and rng.random() < 0.3:
+            # an instance array: every port gets a connection as wide as the port (all elements the same) or n times as wide (element k its k-th w bits)
+            inst["array"] = rng.choice([1, 2, 2, 3])
+        mult = lambda: (inst["array"] if "array" in inst and rng.random() < 0.6 else 1)
+        conns = [[pn, conn_of_width(rng, allsigs, pw * mult(), rng.choice([0, 1, 2, 2, 3]))] for pn, pw in targets[t]["ports"]]
         rng.shuffle(conns)
-        insts.append({"n": f"i{i}", "t": t, "conns": conns})
+        inst["conns"] = conns
+        insts.append(inst)
     case = {"name": f"MP{k}", "signals": sigs, "ports": ports, "targets": targets, "insts": insts, "fault": None}
     if rng.random() < 0.35:
         i = rng.choice(insts)
@@ -158,7 +164,8 @@ def impl(case):
 
     try:
         for i in case["insts"]:
-            m.add(targets[i["t"]](**{pn: mk(c) for pn, c in i["conns"]}), name=i["n"])
+            one = targets[i["t"]](**{pn: mk(c) for pn, c in i["conns"]})
+            m.add((i["array"] * one) if "array" in i else one, name=i["n"])
     except Exception as ex:  # noqa
         return {"reject": "build: " + common.errstr(ex)}
     try:
@@ -181,7 +188,8 @@ def line(case):
     c11 = __import__("props.c11", fromlist=["x"])
     return {"prop": "MP", "op": "pipeline", "ports_first": c11.ports_first(),
             "module": {"name": case["name"], "signals": [[n, w] for n, w in case["signals"]], "ports": [[n, w, d] for n, w, d in case["ports"]],
-                       "instances": [{"n": i["n"], "ref": refs[i["t"]], "conns": i["conns"]} for i in case["insts"]]},
+                       "instances": [{"n": i["n"], "ref": refs[i["t"]], "conns": i["conns"]} for i in case["insts"] if "array" not in i],
+                       "arrays": [{"n": i["n"], "ref": refs[i["t"]], "size": i["array"], "conns": i["conns"]} for i in case["insts"] if "array" in i]},
             "ctx": [[r, [[n, w] for n, w in t["ports"]]] for r, t in zip(refs, case["targets"])]}
 
 
@@ -282,6 +290,9 @@ def judge(case, im, mo):
 S = common.Stream("module_pipe", impl, line, judge, chunk=16, nontrivial=lambda c: any(cc[1]["k"] != "sig" for i in c["insts"] for cc in i["conns"]))
 
 
+SA = common.Stream("array_pipe", impl, line, judge, chunk=16, nontrivial=lambda c: any("array" in i for i in c["insts"]))
+
+
 def corpus():
     """fixed cases: every integer index around both ends of a four-bit bus on a one-bit port (the first index past the top, the first
     below the bottom, twice the width below — seeds C06-r2-2, C06-r3-3, C06-r4-2), and the in-range ones next to them"""
@@ -307,4 +318,6 @@ def run(ctx, n=None):
     S.run(ctx, cases)
     # the same designs as a whole (`pipelineDesign`: children first, each judged against what the package holds so far; design_pipeline_wf)
     SD.run(ctx, cases[: max(60, n // 3)])
+    # … with instance arrays among the instances (`pipelineA`: ArrayFlattener inside the composition; array_elements_read_their_bits)
+    SA.run(ctx, [gen_case(rng, 100000 + k, arrays=True) for k in range(max(80, n // 2))])
     ctx.rep.extra["module_pipe"] = dict(STATS)
